@@ -419,7 +419,7 @@ def _pick_completion(c: Controller, kind: str, return_when: str, recs: List[Task
     recs = sorted(recs, key=lambda r: (str(r.id), r.n))
     already = [r for r in recs if r.finished.is_set() and (r.future is None or r.future.done())]
     c.ev("wait", kind, return_when, _ids(recs), _ids(already))
-    if already:
+    if already and return_when == _cf.FIRST_COMPLETED:
         # the real primitive returns at once with what is done: no choice to make
         c.complete(already)
         return already
@@ -813,7 +813,7 @@ class Driver:
         recs = sorted(recs, key=lambda r: (str(r.id), r.n, r.exec_key or 0))
         already = [r for r in recs if r.finished.is_set()]
         c.ev("wait", "a", return_when, _ids(recs), _ids(already) if already else (("<early>",) if done_early else ()))
-        if already or done_early:
+        if (already and return_when == _cf.FIRST_COMPLETED) or done_early:
             c.complete(already)
             return already
         fut = _real_asyncio.get_running_loop().create_future()
